@@ -5,7 +5,7 @@ import z3
 import frontend
 import ops
 from ops import SB, SI, SR, truthy, equal, compare, arith, zand, zor, znot, asz, lift
-from core import (SVal, TupleVal, LocalDict, FuncVal, ClassVal, ModuleVal, ExcVal, KRef, KEnum, KName,
+from core import (KTotal, KBits, SVal, TupleVal, LocalDict, FuncVal, ClassVal, ModuleVal, ExcVal, KRef, KEnum, KName,
                   KInt, KReal, KBool, KStr, KOpt, KList, KDict, KSet, KCounter, KTuple, KExt, KVec, KVec3,
                   CheckerError, fresh_name, fresh_val, I, B, R)
 
@@ -88,6 +88,8 @@ class ExprMixin:
                 return self.reg.consts[name]
             if name in self.reg.ufuncs:
                 return FuncVal('builtin', qual='ufunc.' + name)
+            if name in self.reg.folds:
+                return FuncVal('builtin', qual='fold.' + name)
             if name in self.reg.ghostvars:
                 return self.ghost_value(name)
             if name in self.SPEC_BUILTINS:
@@ -138,6 +140,8 @@ class ExprMixin:
                     return self.module_global(frontend.module(m), a)
                 return self.library_attr(m, a)
             return ModuleVal(tgt)
+        if ('%s.%s' % (mod.name, name)) in self.reg.consts:
+            return self.reg.consts['%s.%s' % (mod.name, name)]
         if name in mod.assigns:
             return self.const_global(mod, name)
         return NotImplemented
@@ -231,6 +235,7 @@ class ExprMixin:
         return outs
 
     def binop(self, st, fr, op, a, b):
+        a, b = self.unwrap_opt(st, fr, a), self.unwrap_opt(st, fr, b)
         ka, kb = ops.kind_of(a), ops.kind_of(b)
         # string formatting
         if op == '%' and (isinstance(a, str) or ka == KStr):
@@ -332,7 +337,17 @@ class ExprMixin:
             return self.contains(st, fr, b, a)
         if isinstance(op, ast.NotIn):
             return znot(self.contains(st, fr, b, a))
+        a, b = self.unwrap_opt(st, fr, a), self.unwrap_opt(st, fr, b)
         return compare(CMPOPS[type(op)], a, b)
+
+    def unwrap_opt(self, st, fr, v):
+        """Ordering comparison / arithmetic on an optional: None would be a TypeError."""
+        if isinstance(v, SVal) and isinstance(v.kind, KOpt):
+            if not fr.spec:
+                self.oblige(st, '%s#typeerror[None in comparison]' % fr.prefix, z3.Not(v.t[0]))
+                st.assume(z3.Not(v.t[0]))
+            return SVal(v.kind.inner, v.t[1:])
+        return v
 
     def identical(self, a, b):
         # `is`: identity for refs / None / enums / small constants; strings: see C15 note
@@ -359,6 +374,11 @@ class ExprMixin:
                 return zor(*[equal(item, k) for k in cont])
             return item in cont
         k = ops.kind_of(cont)
+        if item is None and isinstance(k, (KDict, KSet)) and not (isinstance(k.key, KRef) or k.key == KName):
+            return False
+        if isinstance(item, SVal) and isinstance(item.kind, KOpt) and isinstance(k, (KDict, KSet)):
+            inner = SVal(item.kind.inner, item.t[1:])
+            return zand(znot(item.t[0]), self.contains(st, fr, cont, inner))
         if isinstance(k, KDict):
             return ops.dict_has(cont, item)
         if isinstance(k, KSet):
@@ -662,6 +682,9 @@ class ExprMixin:
             return self.partial(st, fr, ok, 'KeyError', mk)
         if isinstance(k, KCounter):
             return [(st, ops.counter_get(base, idx))]
+        if isinstance(k, KTotal):
+            kt = ops.key_term(idx, k.key)
+            return [(st, SVal(k.val, [z3.Select(a, kt) for a in base.t]))]
         if isinstance(k, KRef):
             sc = self.schema(k.cls)
             if sc.record and isinstance(idx, str):
